@@ -9,7 +9,7 @@
 //!    f_v(s) != s[v]; EX and AX are both written out (AX is *not* the dual of EX), a state without
 //!    an enabled variable carries a self-loop;
 //!  * EF/EU/AF/AU are least, EG/AG/EW/AW greatest fixed points of their unfoldings (in `fast` mode
-//!    EF/EU use a chaotic per-variable iteration and AG its dual, so that benchmark-size models stay
+//!    EF/EU use a chaotic per-variable iteration, AG and AW their duals, so that benchmark-size models stay
 //!    affordable);
 //!  * hybrid operators use one copy of the state variables per *nesting depth* of the binder (the
 //!    crate numbers them by its canonical renaming), the comparator relation and projections.
@@ -281,7 +281,15 @@ impl<'a> RefSym<'a> {
                     }
                     BinOp::AU => self.lfp(self.ctx.mk_constant(false), |z| y.or(&x.and(&self.ax(z))))?,
                     BinOp::EW => self.lfp(self.unit.clone(), |z| y.or(&x.and(&self.ex(z))))?,
-                    BinOp::AW => self.lfp(self.unit.clone(), |z| y.or(&x.and(&self.ax(z))))?,
+                    BinOp::AW => {
+                        if self.fast {
+                            // A[x W y] = ~E[~y U (~x & ~y)]
+                            let ny = self.not(&y);
+                            self.not(&self.eu_chaotic(&ny, &self.not(&x).and(&ny))?)
+                        } else {
+                            self.lfp(self.unit.clone(), |z| y.or(&x.and(&self.ax(z))))?
+                        }
+                    }
                 }
             }
             F::Hyb(HybOp::Jump, x, _, a) => {
